@@ -150,8 +150,12 @@ CHECKS = {
          "every writer of a bit precedes every reader of it (topo_iff_writer_before_reader), and Kahn's algorithm with an arbitrary tie-break is duplicate-free, "
          "edge-respecting and leaves only predecessor-closed (cyclic) leftovers (kahn_sound, kahn_leftover). Tie to the code: model deps vs _dag.all_constraints, "
          "topoB on every pass's schedule, run-time call order via sys.setprofile, SimpleSchedulePass replayed through the Kahn model, explicit U<U constraints, "
-         "inversions and pure explicit cycles. PARTIAL: method-constraint BFS (_process_methods) and OpenLoopCLPass are not modelled.",
-         "Trusted: as C01; explicit constraints are handled by the harness oracle (python), not by the Lean model; method constraints only exercised behaviourally by C17/C18.",
+         "inversions and pure explicit cycles. Method constraints: Model/Methods.lean models GenDAGPass._process_methods (== classes by flood fill, the two-direction work-list "
+         "search, the four exclusions); Props/C02m.lean proves the added block pairs exactly characterised (process_exact), sound, complete for M<M / U<M / M<U through == classes "
+         "(complete_MM/UM/MU, complete_fwd/bwd) and respected by any topological order incl. Kahn's (schedule_kahn); tied to the code by comparing model and real added pairs on stdlib "
+         "queue chains, MagicMemoryCL and generated method-port designs, plus schedule position and run-time call order. Translator tie: tools/py2lean_overlap.py regenerates "
+         "Gen/OverlapGen.lean from Connectable.py _overlap/slice_overlap each run and Props/C02Gen.lean proves it equal to Rng.overlap. PARTIAL: OpenLoopCLPass is not modelled.",
+         "Trusted: as C01; explicit U<U constraints are handled by the harness oracle (python), not by the Lean model; blocking FL interfaces / greenlets and OpenLoopCLPass outside the model.",
          "Lean 4 proof (verified schedule checker, Kahn with arbitrary oracle) + differential correspondence check", "DESIGN.md §5 C02"),
  'C07': ("Lean 4 theorems over the double-buffer model: the shadow buffer after the ff phase is the same for every permutation of the update_ff blocks (ff_perm, "
          "tick_ff_perm, via pairwise commutation), the ff phase leaves all current values untouched (ff_reads_pre_edge), an unassigned register holds, the last "
